@@ -143,7 +143,7 @@ pub fn vectors(fam: crate::model::Fam) -> Vec<Input> {
 pub fn run(env: &mut Env) -> RunResult {
     env.run_inputs(SUB_B3, &vectors(crate::model::Fam::V3))?;
     env.run_inputs(SUB_B5, &vectors(crate::model::Fam::V5))?;
-    let n = env.tier.sel(6_000, 100_000);
+    let n = env.tier.sel(25_000, 400_000);
     env.run_tapes(SUB_V3, n, 200)?;
     env.run_tapes(SUB_V5, n * 2, 300)?;
     for s in ["c11.reencode.v3", "c11.reencode.v5"] {
